@@ -215,6 +215,7 @@ type c19outcome struct {
 	faultKinds map[string]int
 	probes   map[string]int
 	logParts []string
+	successDespiteFault []string
 	plannedReached bool // the planned fault's call index was reached (whether or not the kind applied)
 }
 
@@ -328,6 +329,7 @@ func (e *c19env) execC19(p c19plan) (o c19outcome) {
 			o.logParts = append(o.logParts, desc, st.Kind, fmt.Sprint(st.At), at, fmt.Sprint(r.Crashed))
 			if r.Err == "" && !r.Crashed && r.Panic == "" {
 				o.probes["faulted_steps_reporting_success"]++
+				o.successDespiteFault = append(o.successDespiteFault, st.Kind+" at "+at)
 			}
 			if strings.HasPrefix(at, "write") && r.Crashed {
 				o.probes["crash_landed_inside_write"]++
@@ -339,7 +341,11 @@ func (e *c19env) execC19(p c19plan) (o c19outcome) {
 				o.probes["io_error_steps"]++
 			}
 			checkUser("after-faulted-gen:" + st.Kind)
-			return // a faulted step is never judged
+			if r.Err != "" || r.Crashed || r.Panic != "" {
+				return // a step that crashed or reported the failure is never judged
+			}
+			// the generator claims success although an I/O fault was handed to it: then the directory must be right
+			trace("%s reported success despite the fault: judged like any successful run", label)
 		}
 		trace("%s -> err=%q", desc, clipS(r.Err+r.Panic))
 		o.logParts = append(o.logParts, desc, r.Err, r.Panic)
@@ -514,6 +520,11 @@ func (e *c19env) account(p c19plan, o c19outcome, vals []uint32) {
 	nontrivial := len(p.Steps) >= 2 || o.fired > 0
 	if nontrivial && (!planned || o.fired > 0) {
 		e.distinct[hash64(string(pb))] = true
+	}
+	for _, sd := range o.successDespiteFault {
+		if len(res.Notes) < 12 {
+			res.Notes = append(res.Notes, "success reported despite fault: "+sd)
+		}
 	}
 	e.logH = hash64(fmt.Sprint(e.logH), fmt.Sprint(vals), strings.Join(o.logParts, "|"), o.key)
 	if len(res.Samples) < 4 && (o.fired > 0 || (len(p.Steps) >= 3 && len(res.Samples) < 2)) {
